@@ -412,3 +412,34 @@ M.contract(P + ':ok_heavy_items', params=dict(items=ListOf(Iface(_ItemI))), retu
 M.loop(P + ':ok_heavy_items', 0,
        invariant=lambda _i, out: len(out) <= _i and forall_range(0, len(out), lambda k: out[k].weight > 10),
        modifies=dict(out=MListOf(_ITEM_REF), it='local'))
+
+
+# ---- names assigned in a loop that its specification does not declare (a temporary introduced by a later edit)
+def ok_undeclared_temporary(xs):
+    for x in xs:
+        positive = x > 0          # not declared in the loop specification: a loop-local temporary
+        if not positive:
+            return False
+    return True
+
+
+M.contract(P + ':ok_undeclared_temporary', params=dict(xs=ListOf(Int)), returns=Bool,
+           ensures={'all-positive': lambda xs, result: result == forall_range(0, len(xs), lambda j: xs[j] > 0)})
+M.loop(P + ':ok_undeclared_temporary', 0, invariant=lambda _i, xs: forall_range(0, _i, lambda j: xs[j] > 0),
+       modifies=dict(x='local'))
+
+
+def bad_undeclared_carried(xs):
+    seen_bad = False
+    for x in xs:
+        if seen_bad:              # reads what an earlier iteration stored; the specification says nothing about it
+            return False
+        seen_bad = x <= 0
+    return True
+
+
+M.contract(P + ':bad_undeclared_carried', params=dict(xs=ListOf(Int)), returns=Bool, cover=False, raises_only=(),
+           ensures={'never-false': lambda result: result is True})
+M.loop(P + ':bad_undeclared_carried', 0, invariant=lambda _i, xs: True, modifies=dict(x='local'))
+# the undeclared name is unbound at the loop head: the read fails on that path, nothing is proved about it
+EXPECTED_REFUTED.add(P + ':bad_undeclared_carried : raises_only()')
